@@ -622,7 +622,17 @@ func (r *run) assumeAxiom(aen *env, ax AxiomRef) (ok bool) {
 			ok = false
 		}
 	}()
-	r.assume(r.C().True(), aen.evalBool(ax.Spec.Body))
+	n0 := len(r.facts)
+	t := aen.evalBool(ax.Spec.Body)
+	r.assume(r.C().True(), t)
+	if smt.HasQuantifier(t) {
+		if r.axiomFacts == nil {
+			r.axiomFacts = map[*smt.Term][]string{}
+		}
+		for _, f := range r.facts[n0:] {
+			r.axiomFacts[f] = r.appsOf(f)
+		}
+	}
 	return true
 }
 
